@@ -84,7 +84,10 @@ class ODMLWriter:
             # Render the data before opening the file: a failing conversion
             # must neither create the file nor truncate an existing one.
             data = self.to_string(odml_document, **kwargs)
-            with open(filename, 'w') as file:
+            # The file is UTF-8 whatever the locale prefers (like the XML files);
+            # text that cannot be encoded has to fail before the file is opened.
+            data.encode("utf-8")
+            with open(filename, 'w', encoding="utf-8") as file:
                 file.write(data)
 
     def to_string(self, odml_document, **kwargs):
